@@ -15,8 +15,10 @@ pub enum FateKind {
     Never,
     /// panic in the main future
     Panic,
-    /// panic in a task spawned by the main future (which itself never finishes)
+    /// panic in a task spawned with spawn_local by the main future (which itself never finishes)
     PanicSpawned,
+    /// panic in a task spawned with tokio::spawn by the main future (which itself never finishes)
+    PanicTokioSpawned,
 }
 
 #[derive(Clone, Debug, Serialize, Deserialize)]
@@ -88,7 +90,7 @@ fn predict(tick: u64, duration_us: u64, start_steps: u64, parties: &[(Party, u64
                 if step_of(i) == Some(k) {
                     match parties[i].0.fate {
                         FateKind::Err => terminals.push(Outcome::ErrParty(i)),
-                        FateKind::Panic | FateKind::PanicSpawned => terminals.push(Outcome::Panic),
+                        FateKind::Panic | FateKind::PanicSpawned | FateKind::PanicTokioSpawned => terminals.push(Outcome::Panic),
                         _ => {}
                     }
                 }
@@ -144,6 +146,15 @@ async fn party_main(sh: Shared, i: usize, p: Party) -> turmoil::Result {
         FateKind::PanicSpawned => {
             let at = p.at_us;
             tokio::task::spawn_local(async move {
+                tokio::time::sleep(Duration::from_micros(at)).await;
+                panic!("fate-panic-{i}");
+            });
+            std::future::pending::<()>().await;
+            Ok(())
+        }
+        FateKind::PanicTokioSpawned => {
+            let at = p.at_us;
+            tokio::spawn(async move {
                 tokio::time::sleep(Duration::from_micros(at)).await;
                 panic!("fate-panic-{i}");
             });
@@ -233,7 +244,13 @@ impl Property for C11 {
                 5 => FateKind::Err,
                 6 | 7 => FateKind::Never,
                 8 => FateKind::Panic,
-                _ => FateKind::PanicSpawned,
+                _ => {
+                    if rng.bool() {
+                        FateKind::PanicSpawned
+                    } else {
+                        FateKind::PanicTokioSpawned
+                    }
+                }
             };
             // instants around step boundaries and around the duration boundary
             let at_ms = match rng.below(5) {
@@ -332,6 +349,20 @@ impl Property for C11 {
                     break 'phases;
                 }
                 if got != Outcome::Ok {
+                    // software that finished (here: with an error) is never polled again: stepping on
+                    // after the error was reported must not panic
+                    if matches!(got, Outcome::ErrParty(_) | Outcome::ErrDuration) {
+                        let after = catch(|| {
+                            let _ = sim.step();
+                            let _ = sim.step();
+                        });
+                        if let Err(p) = after {
+                            let other_panic_due = sc.parties.iter().any(|p| matches!(p.fate, FateKind::Panic | FateKind::PanicSpawned | FateKind::PanicTokioSpawned));
+                            if !other_panic_due {
+                                violation = Some(Violation::new("PolledAfterEnd", format!("after Sim::run reported {:?}, calling step() again panicked: {p}", got)));
+                            }
+                        }
+                    }
                     break;
                 }
                 finished_run = true;
@@ -391,7 +422,7 @@ impl Property for C11 {
                 Ok(v) => violation = v,
                 Err(p) => {
                     // a panic fate must surface as a panic; anything else is unexpected
-                    let expected = sc.parties.iter().enumerate().any(|(i, p)| matches!(p.fate, FateKind::Panic | FateKind::PanicSpawned) && !crashed[i]);
+                    let expected = sc.parties.iter().enumerate().any(|(i, p)| matches!(p.fate, FateKind::Panic | FateKind::PanicSpawned | FateKind::PanicTokioSpawned) && !crashed[i]);
                     if !expected {
                         violation = Some(Violation::new("UnexpectedPanic", format!("Sim::step panicked: {p}")));
                     }
@@ -423,6 +454,7 @@ impl Property for C11 {
                 FateKind::Never => "never",
                 FateKind::Panic => "panic",
                 FateKind::PanicSpawned => "panic_spawned",
+                FateKind::PanicTokioSpawned => "panic_tokio_spawned",
             });
             sh.log.tag(if p.client { "c" } else { "h" });
         }
@@ -435,7 +467,7 @@ impl Property for C11 {
         rep.steps = steps_taken;
         rep.sim_ms = steps_taken * tick / 1000;
         rep.faults.add("host_crash", sc.crashes.len() as u64);
-        rep.faults.add("panic_fate", sc.parties.iter().filter(|p| matches!(p.fate, FateKind::Panic | FateKind::PanicSpawned)).count() as u64);
+        rep.faults.add("panic_fate", sc.parties.iter().filter(|p| matches!(p.fate, FateKind::Panic | FateKind::PanicSpawned | FateKind::PanicTokioSpawned)).count() as u64);
         rep.faults.add("error_fate", sc.parties.iter().filter(|p| p.fate == FateKind::Err).count() as u64);
         if sc.parties.iter().any(|p| p.at_us % tick == 0) {
             rep.probes.inc("fate_on_step_boundary");
